@@ -15,7 +15,8 @@ RULE = ("MDP spec (discounted any-sign rewards, or undiscounted with rewards <= 
         "closed-class analysis on the spec. Non-trivial: policy stochastic at >=1 non-absorbing state and >=2 "
         "non-absorbing states (for gamma=1 additionally a closed non-absorbing class exists under the policy); "
         "distinct by spec hash."
-        ' Also: MDPs of 16-45 states with seed-expanded policies, policy tables of dtype int / bool / float32, None / gapped-integer labels.')
+        ' Also: MDPs of 16-45 states with seed-expanded policies, policy tables of dtype int / bool / float32, None / gapped-integer labels.'
+        ' 101-150-state problems.')
 ASSUMPTIONS = ["numpy.linalg.solve on <=6x6 systems (<=45x45 in the large class)", "action values at absorbing states are not asserted "
                "(the statement fixes only their state value, 0)"]
 
